@@ -33,8 +33,11 @@ Definition get_uint (k : N) (b : brd) : M (N * brd) :=
   if e then merr EEOF else
   mret (be_dec (d ++ repeat 0 (N.to_nat (k - len d))), b').
 
-Definition to_int16 (v : N) : Z := if v <? 32768 then Z.of_N v else (Z.of_N v - 65536)%Z.
-Definition to_int32 (v : N) : Z := if v <? 2147483648 then Z.of_N v else (Z.of_N v - 4294967296)%Z.
+(* int16(binary.BigEndian.Uint16(pcb)), int32(binary.BigEndian.Uint32(pcb)) *)
+Definition to_int16 (v : N) : Z :=
+  let w := v mod 65536 in if w <? 32768 then Z.of_N w else (Z.of_N w - 65536)%Z.
+Definition to_int32 (v : N) : Z :=
+  let w := v mod 4294967296 in if w <? 2147483648 then Z.of_N w else (Z.of_N w - 4294967296)%Z.
 
 Definition get_int16 (b : brd) : M (Z * brd) :=
   dom r <- get_uint 2 b; let '(v, b') := r in mret (to_int16 v, b').
